@@ -467,6 +467,13 @@ pub fn msm_best<C: CurveAffine>(coeffs: &[C::Scalar], bases: &[C]) -> C::Curve {
         return msm_parallel(coeffs, bases);
     }
 
+    // Verification hook: a window size forced by the harness (off unless switched on), so that
+    // the loop below can be observed for small windows too.
+    #[cfg(feature = "verif-hooks")]
+    let c = verif_trace::forced_window().unwrap_or(c);
+    #[cfg(feature = "verif-hooks")]
+    let verif_on = verif_trace::enabled();
+
     // coeffs to byte representation
     let coeffs: Vec<_> = coeffs.par_iter().map(|a| a.to_repr()).collect();
     // copy bases into `Affine` to skip in on curve check for every access
@@ -483,8 +490,16 @@ pub fn msm_best<C: CurveAffine>(coeffs: &[C::Scalar], bases: &[C]) -> C::Curve {
         // schedular for affine addition
         let mut sched = Schedule::new(c);
 
+        #[cfg(feature = "verif-hooks")]
+        let mut verif_local: Vec<(i32, u8)> = Vec::new();
         for (base_idx, coeff) in coeffs.iter().enumerate() {
             let buck_idx = get_booth_index(w, c, coeff.as_ref());
+            #[cfg(feature = "verif-hooks")]
+            let verif_digit = buck_idx;
+            #[cfg(feature = "verif-hooks")]
+            if verif_on && (buck_idx == 0 || bool::from(bases[base_idx].is_identity())) {
+                verif_local.push((verif_digit, if buck_idx == 0 { 0 } else { 1 }));
+            }
 
             // The identity contributes nothing to the sum; the affine schedule
             // (`Affine`, `batch_add`) assumes that bases are never the identity.
@@ -494,14 +509,26 @@ pub fn msm_best<C: CurveAffine>(coeffs: &[C::Scalar], bases: &[C]) -> C::Curve {
                 let buck_idx = buck_idx.unsigned_abs() as usize - 1;
 
                 if sched.contains(buck_idx) {
+                    #[cfg(feature = "verif-hooks")]
+                    if verif_on {
+                        verif_local.push((verif_digit, 2));
+                    }
                     // greedy accumulation
                     // we use original bases here
                     j_bucks[buck_idx].add_assign(&bases[base_idx], sign);
                 } else {
+                    #[cfg(feature = "verif-hooks")]
+                    if verif_on {
+                        verif_local.push((verif_digit, 3));
+                    }
                     // also flushes the schedule if full
                     sched.add(&bases_local, base_idx, buck_idx, sign);
                 }
             }
+        }
+        #[cfg(feature = "verif-hooks")]
+        if verif_on {
+            verif_trace::record(w, verif_local);
         }
 
         // flush the schedule
@@ -686,4 +713,59 @@ pub fn verif_schedule_run<C: CurveAffine>(
         })
         .collect();
     (trace, out)
+}
+
+/// Verification hook: observe-only trace of the driving loop of `msm_best` (per window and per
+/// coefficient: the Booth digit and the decision `0` = zero digit skipped, `1` = identity base
+/// skipped, `2` = bucket already scheduled, Jacobian side, `3` = handed to the affine
+/// schedule), and a window size the harness can force (the natural one, `ceil(ln len)`, is only
+/// reached from 8104 bases on). Both are off unless switched on; process-global because the
+/// windows run on rayon worker threads.
+#[cfg(feature = "verif-hooks")]
+pub mod verif_trace {
+    use std::sync::{
+        atomic::{AtomicUsize, Ordering},
+        Mutex,
+    };
+
+    static FORCED_WINDOW: AtomicUsize = AtomicUsize::new(0);
+    #[allow(clippy::type_complexity)]
+    static TRACE: Mutex<Option<Vec<(usize, Vec<(i32, u8)>)>>> = Mutex::new(None);
+
+    /// Forces the window size of the batch-affine path of `msm_best` (`0` = natural size).
+    pub fn force_window(c: usize) {
+        FORCED_WINDOW.store(c, Ordering::SeqCst);
+    }
+
+    /// The forced window size, if any.
+    pub fn forced_window() -> Option<usize> {
+        match FORCED_WINDOW.load(Ordering::SeqCst) {
+            0 => None,
+            c => Some(c),
+        }
+    }
+
+    /// Starts recording.
+    pub fn start() {
+        *TRACE.lock().unwrap_or_else(|e| e.into_inner()) = Some(Vec::new());
+    }
+
+    /// Whether a recording is running.
+    pub fn enabled() -> bool {
+        TRACE.lock().unwrap_or_else(|e| e.into_inner()).is_some()
+    }
+
+    /// Adds the trace of one window.
+    pub fn record(w: usize, t: Vec<(i32, u8)>) {
+        if let Some(v) = TRACE.lock().unwrap_or_else(|e| e.into_inner()).as_mut() {
+            v.push((w, t));
+        }
+    }
+
+    /// Stops recording and returns the per-window traces sorted by window index.
+    pub fn take() -> Vec<(usize, Vec<(i32, u8)>)> {
+        let mut v = TRACE.lock().unwrap_or_else(|e| e.into_inner()).take().unwrap_or_default();
+        v.sort_by_key(|(w, _)| *w);
+        v
+    }
 }
